@@ -6,7 +6,18 @@ def _regen_consts(ctx):
     return F.harness_regen(ctx, 'consts', 'Consts.lean')
 
 
-REGEN = {'consts': _regen_consts}
+def _regen_typedefregistry(ctx):
+    """harness/typedef_registry_gen.go: every named type of profile/typedef of the repository under test (source listing);
+    rebuild the harness when it changed"""
+    import os
+    import framework as F
+    import typedef_registry
+    if typedef_registry.generate(F.REPO, os.path.join(F.ROOT, 'harness', 'typedef_registry_gen.go')):
+        return F.build_harness(ctx)
+    return True
+
+
+REGEN = {'consts': _regen_consts, 'typedefregistry': _regen_typedefregistry}
 
 def _extra(ctx, spec):
     """exhaustive parts of the tie, counted from the harness statistics of this run"""
@@ -18,6 +29,7 @@ def _extra(ctx, spec):
         'every value type x every base-type byte 0..255 (ops)': d.get('type-x-basetype', 0),
         'every array byte length 0..264 per slice type x both byte orders (ops)': d.get('array', 0) + d.get('array-order-sensitive', 0),
         'UnmarshalValue: every base-type byte x length 0..9 x array x bool flags (ops)': d.get('unm-grid', 0),
+        'proto.Any -> Value.Any() on every named type of profile/typedef beyond the hand-picked ones: scalar, slice, behind a pointer (ops x4)': d.get('any-typedef-named', 0),
         'UnmarshalValue -> MarshalAppend -> UnmarshalValue on arbitrary bytes, every valid base type x flags x byte orders, every byte as typedef.Bool scalar / array element (ops)': d.get('unm-reencode', 0),
         'every 1- and 2-byte string through DecodeRune/Valid/utf8String (blocks)': u.get('exhaustive-2', 0),
     }
@@ -25,14 +37,14 @@ def _extra(ctx, spec):
 
 PROP = dict(
     level='proof',
-    regen=['consts'],
+    regen=['typedefregistry', 'consts'],
     extra=_extra,
-    theorems=['Fit.C06.C06_size_eq_len', 'Fit.C06.C06_marshal_total', 'Fit.C06.C06_marshal_bytes', 'Fit.C06.C06_unmarshal_marshal_partial', 'Fit.C06.C06_unmarshal_marshal_full_fails', 'Fit.C06.C06_norm_id', 'Fit.C06.C06_norm_bool', 'Fit.C06.C06_norm_string', 'Fit.C06.C06_norm_strings', 'Fit.C06.C06_unmarshal_guard', 'Fit.C06.C06_unmarshal_no_panic', 'Fit.C06.C06_unmarshal_err_iff', 'Fit.C06.C06_unmarshal_bool_array', 'Fit.C06.C06_unmarshal_reencode_partial', 'Fit.C06.C06_tag', 'Fit.C06.C06_no_cross_type', 'Fit.C06.C06_any_roundtrip', 'Fit.C06.C06_align_by_type'],
+    theorems=['Fit.C06.C06_size_eq_len', 'Fit.C06.C06_marshal_total', 'Fit.C06.C06_marshal_bytes', 'Fit.C06.C06_unmarshal_marshal_partial', 'Fit.C06.C06_unmarshal_marshal_full_fails', 'Fit.C06.C06_norm_id', 'Fit.C06.C06_norm_bool', 'Fit.C06.C06_norm_string', 'Fit.C06.C06_norm_strings', 'Fit.C06.C06_unmarshal_guard', 'Fit.C06.C06_unmarshal_no_panic', 'Fit.C06.C06_unmarshal_err_iff', 'Fit.C06.C06_unmarshal_marshal_actual', 'Fit.C06.C06_readBack_clean', 'Fit.C06.C06_any_reflect_agrees', 'Fit.C06.C06_any_wrap_unwrap', 'Fit.C06.C06_any_unsupported', 'Fit.C06.C06_any_names_transparent', 'Fit.C06.C06_unmarshal_bool_array', 'Fit.C06.C06_unmarshal_reencode', 'Fit.C06.C06_tag', 'Fit.C06.C06_no_cross_type', 'Fit.C06.C06_any_roundtrip', 'Fit.C06.C06_align_by_type'],
     families=[dict(name='value', spec=True, prop=True), dict(name='utf8')],
     trusted_base=STD_TRUST + [
         "Generated/Consts.lean is printed on every run by `fitharness consts` from the compiled packages (proto.Type numbers, proto's sizes table observed through Size(), vbits/vshift/vmask recovered from the raw num word of empty slices, base type numbers / sizes / invalid sentinels)",
         "unicode/utf8 (DecodeRune, AppendRune, Valid) is modelled after its documented behaviour in FitModel/Utf8.lean and tied by the family utf8 (every 1- and 2-byte string, all (lead, second byte) pairs with boundary continuation bytes, every Unicode scalar value in the thorough tier)",
-        "proto.Any's reflection fallback (named types, pointers) is Go runtime behaviour: modelled as the identity on the underlying kind, tied by the ops `vany`, not proved",
+        "proto.Any's reflection fallback (named types, pointers) is Go runtime behaviour (package reflect): the model describes it by KIND (FitModel/Value.lean: GoVal.named / .ptr, strip, byKind, quiet32) — which Go kinds map to which protocol type, names transparent, one pointer followed, typedef.Bool behind a name / pointer a uint8, unsupported kinds invalid — and the theorems C06_any_reflect_agrees / C06_any_wrap_unwrap / C06_any_unsupported / C06_any_names_transparent are about that description; that reflect behaves so is tied by the ops `vany` (+prop): every named type of profile/typedef (list regenerated from the source of the repository under test, harness/typedef_registry_gen.go: 178 types at this commit), scalar / slice / behind one and two pointers, 7 hand-written named types of the remaining kinds, unsupported values",
     ],
     assumptions=[
         "numbers are bit patterns that fit their Go type (Value.wf); typedef.Bool is one of 0, 1, 255",
@@ -42,6 +54,6 @@ PROP = dict(
 
 TEXT = dict(
     technique='Lean 4 proof over a 25-constructor model of proto.Value (size/marshal/unmarshal/valid/align/tag representation, UTF-8 decoding) + constants regenerated from the compiled packages + differential tie with exhaustive 8/16-bit scalars, every array byte length 0..255 and every 1-2 byte UTF-8 prefix',
-    text='C06: size = marshalled length, unmarshal . marshal = wire normal form, tag/accessor separation, for all values of the 24 types and both byte orders; U+FFFD removal (F02) reproduced as a known finding. typedef.Bool arrays (KF-C01-boolarr, repaired in /repo 5da5106): C06_unmarshal_bool_array — for ANY bytes the array read of a profile-bool field returns one element per byte, element i being what the scalar read of byte i returns, all in {0, 1, 255}; C06_unmarshal_reencode_partial — for ANY bytes, every numeric base type, any bool / array flags and any two byte orders, the value UnmarshalValue returned can be marshalled and reads back as itself (value layer of "re-encoding what the decoder returned"; the string base type is the def C06_unmarshal_reencode_full, evaluated on the implementation by the ops unmre, not proved).',
-    note='Trusted: Lean kernel; the consts translator; the harness/driver line protocol; the model of unicode/utf8 (tied, documented behaviour); reflection path of proto.Any tied only.',
+    text='C06: size = marshalled length, unmarshal . marshal = wire normal form, tag/accessor separation, for all values of the 24 types and both byte orders; U+FFFD removal (F02) reproduced as a known finding. typedef.Bool arrays (KF-C01-boolarr, repaired in /repo 5da5106): C06_unmarshal_bool_array — for ANY bytes the array read of a profile-bool field returns one element per byte, element i being what the scalar read of byte i returns, all in {0, 1, 255}; C06_unmarshal_reencode — for ANY bytes, EVERY base type (strings included: what utf8String returns is NUL-free valid UTF-8 without U+FFFD, Fit.Utf8.utf8String_good, on which it is the identity), any bool / array flags and any two byte orders, the value UnmarshalValue returned can be marshalled and reads back as itself (value layer of "re-encoding what the decoder returned"; evaluated on the implementation by the ops unmre). STRINGS — domain made explicit: the round-trip theorem C06_unmarshal_marshal_partial assumes `clean` (valid UTF-8 without U+FFFD), which leaves out (1) valid UTF-8 containing U+FFFD: inside the property, finding KF-C06-1; (2) byte strings that are not valid UTF-8 (class notUtf8): outside the property — a FIT string is UTF-8, the encoder refuses such a string (C10) and never writes one, proto.utf8String documents that it discards what does not decode; C06_unmarshal_marshal_actual states what the code returns for ALL strings, both classes included (readBack: utf8String of the bytes), C06_readBack_clean that this is the normal form on clean strings. ANY (wrap -> unwrap, reflection path included): C06_any_reflect_agrees — for every Go value (unnamed basic type, named type over any of them incl. every typedef type and slices of them, behind a pointer, names of names) proto.Any returns what the typed constructor returns for the value seen by kind; C06_any_wrap_unwrap — proto.Any(v).Any() is the content unchanged as the unnamed Go type of its kind (a Go bool as typedef.Bool 0/1, a typedef.Bool outside {0,1} as BoolInvalid, unsupported kinds nil); C06_any_unsupported; C06_any_names_transparent; guard: no float32 scalar signalling NaN through reflection (float32(rv.Float()) quiets it).',
+    note='Trusted: Lean kernel; the consts translator; the harness/driver line protocol; the model of unicode/utf8 (tied, documented behaviour); the reflection path of proto.Any is described by kind in the model and proved about; that package reflect behaves as described is tied by the ops vany.',
 )
